@@ -14,6 +14,7 @@ TECHNIQUE = 'runtime monitoring: reference recogniser as oracle over exhaustivel
 RULE = ('exhaustive: every string of length <=5 (quick) / <=6 (thorough) over {@ [ ] : / . > - 0 1 A space}; '
         'random: grammar-derived expressions with every single-character insert/delete/replace mutation; '
         'non-trivial = contains a structural character; distinct by the string itself; both parser configurations (absent slice = all occurrences / first occurrence)')
+RULE += '; added with rounds 10-12: white space of every kind (blank, tab, line ends) inside, before and behind generated expressions; twins (a parser with the opposite option parses the same string first)'
 ASSUMPTIONS = ['IDs are non-empty runs of digits/upper-case letters; IDs with other characters are UNSPECIFIED '
                '(not judged for acceptance, still judged for exception type and print/parse)',
                'integers are [+-]?digits; literals with "_" are UNSPECIFIED',
